@@ -21,6 +21,7 @@ pub struct Shared {
     pub end: EndMode,
     /// transport errors carry kind ConnectionAborted (like ECONNABORTED) instead of a kind the library never produces
     pub abort_kind: bool,
+    pub intr_kind: bool,
     /// reads answered with end-of-file so far; a task that keeps reading at EOF is spinning (guard: panic, reported as SPIN)
     pub eof_reads: usize,
     pub spun: bool,
@@ -41,9 +42,16 @@ pub struct Shared {
 impl Shared {
     pub fn new(input: &[u8], end: EndMode, rd: Vec<Rd>, wr: Vec<Wr>, fl: Vec<Fl>) -> Arc<Mutex<Shared>> {
         Arc::new(Mutex::new(Shared { input: input.iter().copied().collect(), end, rd: rd.into(), wr: wr.into(), fl: fl.into(), wlog: vec![], events: vec![],
-            auto_wake: false, read_waker: None, waiting_for_input: false, reads: 0, writes: 0, hold: false, abort_kind: false, eof_reads: 0, spun: false }))
+            auto_wake: false, read_waker: None, waiting_for_input: false, reads: 0, writes: 0, hold: false, abort_kind: false, intr_kind: false, eof_reads: 0, spun: false }))
     }
-    pub fn terr(&self, k: io::ErrorKind) -> io::Error { if self.abort_kind { io::ErrorKind::ConnectionAborted.into() } else { k.into() } }
+    /// the error a scripted fault produces: by default a kind the library never produces itself (one per operation), with `ek=a` the
+    /// kind ConnectionAborted (which the library also uses for "the client aborted"), with `ek=i` the kind Interrupted (which generic
+    /// I/O code likes to retry) carrying a payload that names the operation
+    pub fn terr(&self, k: io::ErrorKind) -> io::Error {
+        if self.abort_kind { io::ErrorKind::ConnectionAborted.into() }
+        else if self.intr_kind { io::Error::new(io::ErrorKind::Interrupted, match k { io::ErrorKind::TimedOut => "mock:tread", io::ErrorKind::BrokenPipe => "mock:twrite", _ => "mock:tflush" }) }
+        else { k.into() }
+    }
 }
 pub struct MockR(pub Arc<Mutex<Shared>>);
 pub struct MockW(pub Arc<Mutex<Shared>>);
@@ -119,6 +127,7 @@ impl AsyncWrite for MockW {
 pub fn io_kind(e: &io::Error) -> String {
     use io::ErrorKind::*;
     match e.kind() {
+        Interrupted if e.get_ref().map_or(false, |x| x.to_string().starts_with("mock:")) => e.get_ref().unwrap().to_string()[5..].to_string(),
         ConnectionAborted => if matches!(e.get_ref().and_then(|x| x.downcast_ref::<fastcgi_server::parser::Error>()), Some(fastcgi_server::parser::Error::AbortRequest)) { "abort-request".into() } else { "aborted".into() }, InvalidData => "invalid".into(), UnexpectedEof => "eof".into(), WriteZero => "writezero".into(),
         ConnectionReset => "reset".into(), TimedOut => "tread".into(), BrokenPipe => "twrite".into(), PermissionDenied => "tflush".into(),
         Other => if e.to_string().contains("StreamWriter(s) not dropped") { "writers".into() } else { "other".into() },
